@@ -5,10 +5,10 @@ import sqlparse
 from sqlparse import sql
 
 RULE = ('object references [qual.]name [[AS] alias] x spelling (plain, "double-quoted" incl. keywords/blanks/escapes, `backtick`) x whitespace choice x syntactic context '
-        '(select list position, FROM list, JOIN, UPDATE target, INSERT target, subquery) x neighbouring items; non-trivial = distinct (reference text, context)')
+        '(select list position, FROM list, JOIN, UPDATE target, INSERT target, subquery) x neighbouring items; quoted names containing every whitespace / punctuation character, comment openers and separators at the start, middle and end; non-trivial = distinct (reference text, context)')
 ASSUMPTIONS = ['lexer/grouping/accessor models tied by S-TREE/S-ACC on the generated texts and by DOMAIN(skeleton) on the table of the in-context theorem (every skeleton and random admissible renamings of it, on the real code)']
 PARTIAL = ['in-context theorem: parametricity (respell_group_names) + accessors_of_skelCheck are proved in the quick tier; the 570-skeleton table is evaluated by the compiled driver in the quick tier and decided by the kernel in the thorough tier (SqlPropsSlow.C12Table, about 30 min CPU); contexts outside the table (deeper nesting, longer lists, other whitespace token counts) are checked on the real code by the oracle']
-THOROUGH_MODULES = ['SqlPropsSlow.C12Table']
+THOROUGH_MODULES = ['SqlPropsSlow.C12Table', 'SqlPropsSlow.C12Table2']
 
 PLAIN = ['col_x', 't1', 'emp', 'zz9', 'a', 'B', 'u_name', 'dept_id', 'x1y', 'Tbl']
 QUOTED = ['"Q x"', '"select"', '"a;b"', '"it""s"', '"x.y"', '`bq`', '`from`', '`a b`', '"Ünï"', '"a,b"',
@@ -161,9 +161,38 @@ def whitespace_sweep(ctx):
                 _check_ref(ctx, 'SELECT a, (SELECT' + g + ref + g + 'FROM uu)' + g + 'AS s1' + g + 'FROM tt', ref, name, qual, alias, 'ws-subquery')
 
 
+def quoted_inner_sweep(ctx):
+    """'quoted with double quotes or backticks': what a quoted name may contain — every whitespace character (a quoted name may span lines),
+    every ASCII punctuation character, comment openers, statement separators, the other quote characters, non-ASCII letters, digits first —
+    at the start, in the middle and at the end of the name; as name, as qualifier and as alias.  (The delimiter itself is written doubled;
+    a backslash directly before the closing delimiter is the lexer's escape and is not generated.)"""
+    rng = ctx.rng
+    inner = whitespace_chars() + [chr(c) for c in range(33, 127) if not chr(c).isalnum()] + ['--', '/*', '*/', '/* c */', '-- c', ';;', '::', ':=', "''", '€', 'é', '名', '\r\n', '\n\n', ' \n ', '0', '9x']
+    for q in '"`':
+        for ch in inner:
+            body = ch.replace(q, q + q)
+            for nm in ('a' + body + 'b', body + 'a', 'a' + body):
+                if nm.endswith('\\'):
+                    continue
+                ref = q + nm + q
+                want = nm.replace(q + q, q + q)       # remove_quotes only strips the delimiters
+                forms = [(ref, want, None, None), (ref + '.k_1', 'k_1', want, None), ('k_1 AS ' + ref, 'k_1', None, want), ('q_1.' + ref + ' k_2', want, 'q_1', 'k_2')]
+                if ctx.quick():
+                    forms = rng.sample(forms, 2)
+                for r, name, qual, alias in forms:
+                    k = rng.randrange(3)
+                    if k == 0:
+                        _check_ref(ctx, 'SELECT ' + r + ', b FROM tt', r, name, qual, alias, 'quoted-select-list')
+                    elif k == 1:
+                        _check_ref(ctx, 'SELECT a FROM ' + r + ' WHERE a = 1', r, name, qual, alias, 'quoted-from')
+                    else:
+                        _check_ref(ctx, 'UPDATE ' + r + ' SET v = 1', r, name, qual, alias, 'quoted-update')
+
+
 def run(ctx):
     rng = ctx.rng
     texts = []
+    quoted_inner_sweep(ctx)
     for it in range(ctx.n(500, 12000)):
         ref, name, qual, alias = make_ref(rng)
         for cname, text, cls in contexts(rng, ref, alias is not None):
@@ -213,12 +242,13 @@ def domain_skeleton(ctx):
     thorough tier); (2) the real code has the canonical Identifier for every skeleton text; (3) the theorem's universal part on the real
     code: random admissible renamings of all names, re-casing of keywords and other whitespace characters keep the accessors' answers"""
     rng = ctx.rng
-    mo = ctx.model.ask(['skelcheck'])[0].split()
-    ctx.stream('DOMAIN(skeleton)', inputs=1, lines=1)
-    if mo[:1] != ['ok'] or mo[1] != mo[2]:
-        ctx.mismatch('DOMAIN(skeleton)', 'skelcheck', ' '.join(mo)[:300], 'all skeletons canonical')
+    for cmd in ('skelcheck', 'skelcheck2'):
+        mo = ctx.model.ask([cmd])[0].split()
+        ctx.stream('DOMAIN(skeleton)', inputs=1, lines=1)
+        if mo[:1] != ['ok'] or mo[1] != mo[2]:
+            ctx.mismatch('DOMAIN(skeleton)', cmd, ' '.join(mo)[:300], 'all skeletons canonical')
     un = lambda w: None if w == '-' else ''.join(chr(int(x, 16)) for x in w.split(','))
-    sk = [tuple(un(p) for p in w.split('|')) for w in ctx.model.ask(['skeltexts'])[0].split()[1:]]
+    sk = [tuple(un(p) for p in w.split('|')) for cmd in ('skeltexts', 'skeltexts2') for w in ctx.model.ask([cmd])[0].split()[1:]]
     ctx.dist['skeletons'] = len(sk)
     pool = 'dfghijkmnopquvwxyz'          # letters outside the pieces of CREATE/TABLE/AS (`Blocked` names of the theorem)
     def fresh():
